@@ -220,6 +220,60 @@ def free_fetch_risk(seq):
 
 
 # --------------------------------------------------------------------------- C13
+PT_MC_CFG = """SPECIFICATION GSpec
+CONSTANTS
+  Conn = {1, 2, 3}
+  Configured = %(conf)s
+  Depth = 0
+  Record = FALSE
+INVARIANTS TypeOK NeedsConfig
+PROPERTIES IsolationG NoDowngradeG
+CHECK_DEADLOCK FALSE
+"""
+PT_GEN_CFG = """SPECIFICATION GSpec
+CONSTANTS
+  Conn = {1, 2}
+  Configured = %(conf)s
+  Depth = %(depth)d
+  Record = TRUE
+INVARIANT Emit
+CHECK_DEADLOCK FALSE
+"""
+PT_TRACE_CFG = """SPECIFICATION TraceSpec
+CONSTANTS
+  Conn = {1, 2}
+  Configured = %(conf)s
+INVARIANTS TypeOK NeedsConfig
+POSTCONDITION TraceAccepted
+CHECK_DEADLOCK FALSE
+"""
+
+
+def stls_stage(run, vh, quick):
+    """STLS over several connections (Pop3Tls.tla): behaviour beyond the statement of C13; departures are notes, not verdicts"""
+    total = 0
+    for conf in ("TRUE", "FALSE"):
+        run.model_check("GenPop3Tls", PT_MC_CFG % dict(conf=conf), label="Pop3Tls(Configured=%s)" % conf)
+        seqs = run.generate("GenPop3Tls", PT_GEN_CFG % dict(conf=conf, depth=6 if quick else 8))
+        seqs = [s for s in seqs if any(a["k"] == "stls" for a in s) or any(a["k"] == "capa" for a in s)]
+        rng = random.Random(run.seed)
+        rng.shuffle(seqs)
+        seqs = seqs[:1500 if quick else 12000] if conf == "TRUE" else seqs[:200 if quick else 1500]
+        beh = [{"id": "stls-%s-%d" % (conf[0], i), "configured": conf == "TRUE", "steps": s} for i, s in enumerate(seqs)]
+        tf = run.harness_parallel(vh, "pop3tls", beh, "stls" + conf[0], procs=8)
+        res = run.validate("Pop3TlsTrace", PT_TRACE_CFG % dict(conf=conf), tf, max_rej=5)
+        total += len(beh)
+        byid = {b["id"]: b for b in beh}
+        for r in res["rejections"]:
+            ev = r["rejected_event"]
+            run.note("POP3 STLS over several connections (Pop3Tls.tla): after %s the server answered %s on connection %s: not what the contract allows "
+                     "(STLS is offered / accepted exactly while THIS connection is in the clear, in AUTHORIZATION, with TLS configured)" % (
+                         json.dumps([(a["k"], a["c"]) for a in byid.get(r["trace"], {}).get("steps", [])[:r["rejected_event_index"] - 1]]),
+                         json.dumps({k: ev.get(k) for k in ("a", "cls", "offered", "upgraded") if k in ev}), ev.get("c")),
+                     {"behaviour": byid.get(r["trace"]), "rejection": r})
+    run.cov["stls_behaviours"] = total
+
+
 def c13(run, args):
     if args.replay:
         return replay_file(run, args)
@@ -282,6 +336,7 @@ def c13(run, args):
     beh += behaviours_from(run, sim, stores_for(sim, rot if quick else both), "sim")
     run.cov["samples"] = [tour[len(tour) // 2], bfs[len(bfs) // 2], sim[0][:16]] if tour and bfs and sim else []
     replay_and_validate(run, vh, beh, "c13")
+    stls_stage(run, vh, quick)
     run.cov["rule"] = ("TLC walks every edge (state, command with argument class) of the Pop3 contract's bounded state graph once (transition tour; each edge is "
                        "followed by STAT, LIST, UIDL and QUIT so that the snapshot, the marks and the commit become visible), enumerates every sequence over "
                        "{DELE valid/marked/n+1, RSET, STAT, QUIT, disconnect, environment deliver/remove/purge} inside a session to the stated depth, and simulates "
